@@ -93,6 +93,9 @@ def run(ctx):
         cache = {}
 
         def posts(pre_, post, out, names, c, q=q, U=U, dag=dag, cache=cache):
+            return _posts(pre_, post, out, names, c, q, U, dag, cache) + no_write(c, q[0])
+
+        def _posts(pre_, post, out, names, c, q=q, U=U, dag=dag, cache=cache):
             # the reference terms depend on the pre-state accessors only: build them once per case (and once per concrete replay)
             if not isinstance(pre_, e2.Acc) or getattr(pre_, "concrete", False):
                 return spec(q, U, dag, pre_, out, {})
@@ -100,6 +103,16 @@ def run(ctx):
 
         st = e2.run(ctx, q[0], U, vars_, pre, {}, op, posts, detail={"case": cid}, normalize_ret=norm, split=(sb, k))
         ctx.sample({"case": cid, "universe": U, "query": f"{q[0]}({q[1]})", "paths": st["paths"]})
+
+
+def no_write(c, name):
+    """a query must not write to the circuit it is called on: on the symbolic graph the write log must be empty (holds for every
+    pre-state of the path); on a real graph (replay) this is covered by the conformance comparison of the states"""
+    g = c.graph
+    if not getattr(g, "is_symbolic", False):
+        return []
+    clean = not g.wnode and not g.wattr and not g.wedge and not g.created
+    return [("no-write", z3.BoolVal(clean), f"query:{name}:writes-to-circuit", f"{name} modified the circuit it was called on")]
 
 
 def norm(k):
